@@ -228,6 +228,60 @@ theorem links_consistent_exec_thresholded {m : Pomdp} {vf : VF} (hz : ZeroBelow 
     execReturn m vf h id b = dot m.S b (val (entry vf h id)) :=
   links_consistent_exec (consistent_exact_of_zeroBelow hz hc) h id b hh hid
 
+/-! ## the model as the Projecter sees it: no hypothesis on the observation table needed -/
+
+theorem differentSmall0_zero : differentSmall0 0 = false := by
+  simp [differentSmall0, absQ, Gen.equalToleranceSmall]
+
+theorem possible_cutModel (m : Pomdp) (a o : Nat) : possible (cutModel m) a o = possible m a o := by
+  by_cases hp : possible m a o = true
+  · have e : ∀ s, (cutModel m).Ob a s o = m.Ob a s o := fun s => by simp [cutModel, hp]
+    show (List.range (cutModel m).S).any (fun s => differentSmall0 ((cutModel m).Ob a s o)) = possible m a o
+    simp only [e]; rfl
+  · have hp' : possible m a o = false := by simpa using hp
+    rw [hp']
+    unfold possible cutModel
+    simp only [hp', Bool.false_eq_true, if_false, differentSmall0_zero]
+    simp
+
+theorem zeroBelow_cutModel (m : Pomdp) : ZeroBelow (cutModel m) := by
+  intro a o _ _ hp s _
+  rw [possible_cutModel] at hp
+  simp [cutModel, hp]
+
+theorem oneStep_cutModel (m : Pomdp) (prev : VList) (e : VEntry) (s : Nat) :
+    oneStep (cutModel m) prev e s = oneStep m prev e s := by
+  unfold oneStep
+  have h1 : (cutModel m).R = m.R := rfl
+  have h2 : (cutModel m).disc = m.disc := rfl
+  have h3 : (cutModel m).O = m.O := rfl
+  have h4 : (cutModel m).S = m.S := rfl
+  have h5 : (cutModel m).T = m.T := rfl
+  rw [h1, h2, h3, h4, h5]
+  congr 2
+  apply sumTo_congr
+  intro o _
+  rw [possible_cutModel]
+  by_cases hp : possible m e.action o = true
+  · simp only [hp, if_true]
+    apply sumTo_congr
+    intro s1 _
+    simp [cutModel, hp]
+  · simp [hp]
+
+theorem consistent_cutModel {m : Pomdp} {vf : VF} (hc : Consistent m vf) : Consistent (cutModel m) vf := by
+  intro h hh id hid
+  have ok := hc h hh id hid
+  exact ⟨ok.action_lt, ok.obs_len, ok.vals_len, ok.link_lt, fun s hs => by rw [oneStep_cutModel]; exact ok.plan s hs⟩
+
+/-- **links_consistent_exec_cut.**  `Consistent` exactly as the code builds it (no assumption on the model): executing
+    the stored plan in the POMDP *as the Projecter sees it* (observation columns ≤ 1e-6 everywhere read as 0) earns
+    exactly `b · values`, for every horizon, entry and belief.  (The driver evaluates this clause.) -/
+theorem links_consistent_exec_cut {m : Pomdp} {vf : VF} (hc : Consistent m vf)
+    (h id : Nat) (b : Nat → Rat) (hh : h < vf.length) (hid : id < (vlist vf h).length) :
+    execReturn (cutModel m) vf h id b = dot m.S b (val (entry vf h id)) :=
+  links_consistent_exec_thresholded (zeroBelow_cutModel m) (consistent_cutModel hc) h id b hh hid
+
 /-! ## findBestAtPoint / Policy::sampleAction(b, h) -/
 
 theorem bestScan_spec (S : Nat) (b : Nat → Rat) (l : VList) :
